@@ -1,0 +1,122 @@
+//go:build verif
+
+// Contracts for the file-handle table (filehandle.go, minheap.go): C05, C06. Comment-only file.
+package absnfs
+
+// ---- free-id heap under its set view (trusted: container/heap keeps the minimum on top)
+//@ ghost heapSet [1][1]bool
+
+//@ func uint64MinHeap.PopMin
+//@ assumed
+//@ modifies heapSet
+//@ ensures result1 ==> old(heapSet[h][result0]) && !heapSet[h][result0] && forall(x, uint64, old(heapSet[h][x]) ==> result0 <= x) && forall(x, uint64, x != result0 ==> heapSet[h][x] == old(heapSet[h][x]))
+//@ ensures !result1 ==> result0 == 0 && forall(x, uint64, !old(heapSet[h][x])) && heapSet[h] == old(heapSet[h])
+//@ ensures forall(o, mathint, o != h ==> heapSet[o] == old(heapSet[o]))
+
+//@ func uint64MinHeap.PushValue
+//@ assumed
+//@ modifies heapSet
+//@ ensures heapSet[h][val] && forall(x, uint64, x != val ==> heapSet[h][x] == old(heapSet[h][x])) && forall(o, mathint, o != h ==> heapSet[o] == old(heapSet[o]))
+
+//@ func NewUint64MinHeap
+//@ assumed
+//@ modifies heapSet
+//@ ensures fresh(result) && result != nil && forall(x, uint64, !heapSet[result][x]) && forall(o, mathint, o != result ==> heapSet[o] == old(heapSet[o]))
+
+// ---- history of issued handle values (C06): issuedHas[fm][h] / issuedPath[fm][h] = first path h was returned for
+//@ ghost issuedHas [1][1]bool
+//@ ghost issuedPath [1][1]string
+
+//@ specdef isNode(f absfs.File) bool = typeof(f) == typeid(*NFSNode) && ptrof(f, *NFSNode) != nil
+//@ specdef nodePath(f absfs.File) string = ptrof(f, *NFSNode).path
+//@ specdef maxEff(fm *FileHandleMap) mathint = ite(fm.maxHandles <= 0, 100000, fm.maxHandles)
+
+// representation invariant of the table, in parts
+//@ specdef fmShape(fm *FileHandleMap) bool = fm != nil && fm.handles != nil && fm.pathHandles != nil && fm.freeHandles != nil && forall(h, uint64, has(fm.handles, h) && typeof(fm.handles[h]) == typeid(*NFSNode) ==> ptrof(fm.handles[h], *NFSNode) != nil)
+// path index -> table: an indexed path names a live node with that path
+//@ specdef fmPaths(fm *FileHandleMap) bool = forall(p, string, has(fm.pathHandles, p) ==> has(fm.handles, fm.pathHandles[p]) && isNode(fm.handles[fm.pathHandles[p]]) && nodePath(fm.handles[fm.pathHandles[p]]) == p)
+// ids: live ids are below nextHandle and not free; free ids are below nextHandle
+//@ specdef fmIds(fm *FileHandleMap) bool = forall(h, uint64, has(fm.handles, h) ==> h < fm.nextHandle && !heapSet[fm.freeHandles][h]) && forall(h, uint64, heapSet[fm.freeHandles][h] ==> h < fm.nextHandle)
+// table -> path index: every live node with a path is the one its path is indexed to (one handle per path)
+//@ specdef fmRev(fm *FileHandleMap) bool = forall(h, uint64, has(fm.handles, h) && isNode(fm.handles[h]) && nodePath(fm.handles[h]) != "" ==> has(fm.pathHandles, nodePath(fm.handles[h])) && fm.pathHandles[nodePath(fm.handles[h])] == h)
+//@ specdef fmInv(fm *FileHandleMap) bool = fmShape(fm) && fmPaths(fm) && fmIds(fm) && fmRev(fm) && len(fm.handles) <= maxEff(fm)
+// ids at or above nextHandle were never issued; every live id was issued. (That a live id still names the
+// path it was FIRST issued for is what the known finding C06-reuse breaks, so it is not part of the invariant.)
+//@ specdef issuedInv(fm *FileHandleMap) bool = forall(h, uint64, has(fm.handles, h) ==> issuedHas[fm][h]) && forall(h, uint64, h >= fm.nextHandle ==> !issuedHas[fm][h])
+
+//@ func FileHandleMap.Allocate
+//@ prop C05 C06
+//@ requires fmInv(fm) && issuedInv(fm) && isNode(f)
+// A-COUNTER: the 64-bit id counter does not wrap (fewer than 2^64-1 ids are ever handed out)
+//@ requires fm.nextHandle < 18446744073709551615
+//@ modifies mapof(fm.handles), mapof(fm.pathHandles), fm.nextHandle, heapSet, extstate, locks, issuedHas, issuedPath
+//@ atreturn set issuedPath[fm] = ite(issuedHas[fm][result], issuedPath[fm], setidx(issuedPath[fm], result, nodePath(f)))
+//@ atreturn set issuedHas[fm] = setidx(issuedHas[fm], result, true)
+//@ ensures [inv-shape] fmShape(fm)
+//@ ensures [inv-paths] fmPaths(fm)
+//@ ensures [inv-ids] fmIds(fm)
+//@ ensures [inv-rev] fmRev(fm)
+//@ ensures [live] has(fm.handles, result) && fm.handles[result] == f
+//@ ensures [one-per-path] nodePath(f) != "" && old(has(fm.pathHandles, nodePath(f))) ==> result == old(fm.pathHandles[nodePath(f)])
+//@ ensures [bounded] len(fm.handles) <= maxEff(fm)
+//@ ensures [unlocked] held(fm.RWMutex) == 0
+// C06: a value that was never issued, or was issued for this very path, is the only thing Allocate may return
+//@ ensures [issued-stable-fresh-id] {C06} result >= old(fm.nextHandle) ==> !old(issuedHas[fm][result])
+//@ ensures [counter-monotone] {C06} fm.nextHandle >= old(fm.nextHandle) && result < fm.nextHandle
+//@ ensures [issued-stable-reused-id] {C06} !old(issuedHas[fm][result]) || old(issuedPath[fm][result]) == nodePath(f)
+//@ ensures [issued-inv] {C06} issuedInv(fm)
+//@ loop 2 invariant fm != nil && held(fm.RWMutex) == -1 && evictCount >= 0 && len(fm.handles) - evictCount <= maxH && maxH == maxEff(fm)
+//@ loop 2 invariant has(fm.handles, handle) && fm.handles[handle] == f
+//@ loop 2 invariant fmShape(fm) && fm.handles == old(fm.handles) && fm.pathHandles == old(fm.pathHandles) && fm.freeHandles == old(fm.freeHandles)
+//@ loop 2 invariant fmPaths(fm)
+//@ loop 2 invariant fmIds(fm)
+//@ loop 2 invariant fmRev(fm)
+//@ loop 2 invariant {C06} forall(h, uint64, h != handle && has(fm.handles, h) ==> issuedHas[fm][h]) && forall(h, uint64, h >= fm.nextHandle ==> !issuedHas[fm][h]) && issuedHas == old(issuedHas) && issuedPath == old(issuedPath) && handle < fm.nextHandle
+
+//@ func FileHandleMap.Get
+//@ prop C05 C06
+//@ requires fm != nil && fm.handles != nil
+//@ modifies locks
+//@ ensures [view] result1 == has(fm.handles, handle) && (result1 ==> result0 == fm.handles[handle])
+//@ ensures [unlocked] held(fm.RWMutex) == 0
+
+//@ func FileHandleMap.Count
+//@ prop C05
+//@ requires fm != nil
+//@ modifies locks
+//@ ensures [view] result == len(fm.handles)
+
+//@ func FileHandleMap.Release
+//@ prop C05 C06
+//@ requires fmInv(fm) && issuedInv(fm)
+//@ modifies mapof(fm.handles), mapof(fm.pathHandles), heapSet, extstate, locks
+//@ ensures [inv-shape] fmShape(fm)
+//@ ensures [inv-paths] fmPaths(fm)
+//@ ensures [inv-ids] fmIds(fm)
+//@ ensures [inv-rev] fmRev(fm)
+//@ ensures [bounded] len(fm.handles) <= maxEff(fm)
+//@ ensures [gone] !has(fm.handles, handle) && forall(h, uint64, h != handle ==> has(fm.handles, h) == old(has(fm.handles, h)) && (has(fm.handles, h) ==> fm.handles[h] == old(fm.handles[h])))
+//@ ensures [issued-kept] {C06} issuedInv(fm) && fm.nextHandle == old(fm.nextHandle)
+//@ ensures [unlocked] held(fm.RWMutex) == 0
+
+//@ func FileHandleMap.ReleaseAll
+//@ prop C05 C06 C17
+//@ requires fmInv(fm) && issuedInv(fm)
+//@ modifies mapof(fm.handles), fm.pathHandles, fm.freeHandles, heapSet, extstate, locks, elems(uint64), fields(uint64MinHeap)
+//@ ensures [empty] len(fm.handles) == 0 && forall(h, uint64, !has(fm.handles, h))
+//@ ensures [inv] fmShape(fm) && fmPaths(fm) && fmIds(fm) && fmRev(fm)
+// the id counter is NOT reset: values already given out are not handed out again as 'new'
+//@ ensures [counter-kept] {C06} fm.nextHandle == old(fm.nextHandle) && issuedInv(fm)
+//@ ensures [unlocked] held(fm.RWMutex) == 0
+//@ loop 1 invariant fm != nil && held(fm.RWMutex) == -1 && fm.handles == old(fm.handles) && fm.handles != nil && fm.nextHandle == old(fm.nextHandle)
+//@ loop 1 invariant forall(k, uint64, visited[k] ==> !has(fm.handles, k)) && forall(k, uint64, has(fm.handles, k) ==> old(has(fm.handles, k)))
+//@ loop 1 invariant len(fm.handles) >= 0
+
+//@ func NFSProcedureHandler.lookupNode
+//@ prop C06 C05
+//@ requires h != nil && h.server != nil && h.server.handler != nil && h.server.handler.fileMap != nil && h.server.handler.fileMap.handles != nil
+//@ modifies locks
+// a handle value is served on exactly the object the table holds for it, or not at all (no fallback object)
+//@ ensures [exact-or-stale] result1 ==> has(h.server.handler.fileMap.handles, handle) && typeof(h.server.handler.fileMap.handles[handle]) == typeid(*NFSNode) && result0 == ptrof(h.server.handler.fileMap.handles[handle], *NFSNode)
+//@ ensures [miss-is-nil] !result1 ==> result0 == nil
+//@ ensures [miss-iff] !has(h.server.handler.fileMap.handles, handle) ==> !result1
